@@ -238,7 +238,7 @@ def run(rep, tier, seed):
     items += [("psfull-bucket", (1, b), None) for b in psfull.buckets(1) if b[0] != "afn"]
     nseeds, max_lines = 2, 0
   else:
-    nseeds, max_lines = 10, 200
+    nseeds, max_lines = 6, 200
   for pid, src in seed_programs(nseeds):
     for mid, msrc in mutants(src):
       items.append(("mutant", pid + "|" + mid, msrc))
